@@ -2,12 +2,33 @@
 from ..rules import tree
 
 ID = 'C01'
-TECHNIQUE = 'AST class-graph analysis: visitor-dispatch resolution, child-list completeness, all-paths-return check'
+TECHNIQUE = ('AST class-graph analysis: visitor-dispatch resolution, child-list completeness, all-paths-return check; '
+             'UNPACK: symbolic run of the sequence-unpacking emitters over affine list views (symbolic target count, star position and loop counters), '
+             'emitted C text kept with placeholders and its index expressions compared as linear forms')
 DECIDES = ('T1: every attribute a node class drives through a tree phase is listed in its child_attrs/subexprs; '
            'T2: every listed child is a defined attribute; V1: every visit_<Class> handler of every tree visitor names an existing node class '
            '(dispatch is by class name); V2: every transform handler returns a node on all paths (None deletes the node); '
-           'G3/G4 label save/restore and placement for statement nodes.')
-NOT_DECIDED = 'that the generated C computes what CPython computes for any program.'
+           'G3/G4 label save/restore and placement for statement nodes; KEYERR: utility code raising KeyError passes an argument tuple; '
+           'UNPACK: in SequenceNode.generate_*: every emitted item fetch for the target at position p reads index p (or SIZE-(N-p) from the end of the '
+           'container whose size SIZE is), elements of the parallel lists args / unpacked_items / coerced_unpacked_items only meet with equal indices, the size guard '
+           'before from-the-end fetches and the slice trimming the starred list both use the number of trailing targets, and the generic iterator '
+           'unpacker is only handed front parts of unpacked_items.')
+NOT_DECIDED = ('that the generated C computes what CPython computes for any program.  UNPACK does not decide reference counting, the iterator protocol branch '
+               '(order is the iteration order), that left / starred / right partition the targets, nor error messages.')
+MUTATIONS = [   # (file, single edit on a scratch copy, rule that reported it) — C01-UNPACK
+    ('Cython/Compiler/ExprNodes.py', "seed C01a: generate_starred_assignment_code walks the trailing targets forwards but keeps the index len-(i+1)", 'C01-UNPACK fetch'),
+    ('Cython/Compiler/ExprNodes.py', "generate_starred_assignment_code: PyList_GET_ITEM(.., len-(i+1)) -> len-i", 'C01-UNPACK fetch'),
+    ('Cython/Compiler/ExprNodes.py', "generate_starred_assignment_code: zip(right[::-1], self.coerced_unpacked_items) (one side not reversed)", 'C01-UNPACK align'),
+    ('Cython/Compiler/ExprNodes.py', "generate_special_parallel_unpacking_code: PyTuple_GET_ITEM(sequence, {i}) -> {i+1}", 'C01-UNPACK fetch'),
+    ('Cython/Compiler/ExprNodes.py', "generate_special_parallel_unpacking_code: enumerate(self.unpacked_items) -> enumerate(self.unpacked_items, 1)", 'C01-UNPACK fetch'),
+    ('Cython/Compiler/ExprNodes.py', "generate_special_parallel_unpacking_code: enumerate(self.unpacked_items[::-1])", 'C01-UNPACK fetch'),
+    ('Cython/Compiler/ExprNodes.py', "generate_starred_assignment_code: PySequence_GetSlice(.., len - len(left))", 'C01-UNPACK count:trim'),
+    ('Cython/Compiler/ExprNodes.py', "generate_starred_assignment_code: size guard `len < len(right)-1`", 'C01-UNPACK count:guard'),
+    ('Cython/Compiler/ExprNodes.py', "generate_starred_assignment_code: arg.generate_assignment_code(self.coerced_unpacked_items[i-1], code)", 'C01-UNPACK align'),
+    ('behaviour-preserving (all silent)',
+     "reversed(x) instead of x[::-1]; trailing targets walked forwards with the index len-(n_right-k), renamed locals and an f-string; "
+     "`for pos in range(len(self.unpacked_items)): item = self.unpacked_items[pos]` instead of enumerate", 'silent'),
+]
 
 
 def run(ctx):
